@@ -18,7 +18,7 @@ LEAN_FILES = ["PoorModel/Range.lean", "PoorModel/HeaderValue.lean",
 THEOREMS = ["Poor.Props.C07.rangeGen_spec", "Poor.Props.C07.window_spec",
             "Poor.Props.C07.C07_buffer", "Poor.Props.C07.C07_file",
             "Poor.Props.C07.C07_generator", "Poor.Props.C07.C07_no_range",
-            "Poor.Props.C07.C07_first_range_only", "Poor.Props.C07.C07_full"]
+            "Poor.Props.C07.C07_first_range_only", "Poor.Props.C07.C07"]
 TRUSTED_BASE = ["model Poor.Range hand-written from response.py:170-211,251-310,369-373,512-522,575-601",
                 "RE_BYTES_RANGE scanner Poor.HeaderValue.scanRanges (pattern text pinned by Gen.Patterns)"]
 ASSUMPTIONS = ["generator responses: declared length equals the total chunk length",
